@@ -58,6 +58,7 @@ def run(tier):
     rule_R4(res, prog, cg, c)
     rule_R5(res, prog)
     rule_R6(res, prog, cg)
+    rule_R3l(res, prog)
     return res.finish()
 
 
@@ -563,4 +564,28 @@ def rule_R6(res, prog, cg):
                                  name, node["fn"], ln, path[-1][1]), file=fn.relfile, line=ln)
             res.instance("C02.R6", "%s: %s at line %s -> remSeq advanced before success" % (name, node["fn"], ln), path is None, finding=f_)
     res.floor("C02.R6", 3)
+
+
+def rule_R3l(res, prog):
+    """The record MAC is compared over the negotiated MAC length (ssl->deMacSize: the full digest, or 10 bytes when
+    truncated_hmac was negotiated) - not over a shorter prefix."""
+    from sa.pp import pp
+    res.rule("C02.R3l", "record MAC verification compares exactly ssl->deMacSize bytes")
+    g, rows = tables.cipher_rows(prog)
+    names = sorted(set(r["verifyMac"] for r in rows if isinstance(r.get("verifyMac"), str)))
+    n = 0
+    for name in names:
+        fn = prog.fn(name)
+        for b, ln, c in fn.calls():
+            if c.get("fn") in ("memcmpct", "memcmp", "__builtin_memcmp") and len(c.get("a", [])) >= 3:
+                n += 1
+                L = strip(c["a"][2])
+                ok = L is not None and L.get("k") == "mem" and L.get("f") == "deMacSize" and L.get("r") == "ssl"
+                f_ = None
+                if not ok:
+                    f_ = Finding(PROP, "C02.R3l", name, "MAC compared over %s" % pp(L)[:30],
+                                 "%s:%s %s(): the computed and the received record MAC are compared over %s bytes instead of ssl->deMacSize: "
+                                 "a forger has to match only a prefix of the MAC" % (fn.relfile, ln, name, pp(L)), file=fn.relfile, line=ln)
+                res.instance("C02.R3l", "%s:%s %s(.., %s)" % (name, ln, c["fn"], pp(L)[:30]), ok, finding=f_)
+    res.floor("C02.R3l", 1)
 
